@@ -64,6 +64,11 @@ def cases(tier, seed):
                 if lay:
                     c["lengths"] = lay
                 out.append(c)
+    # (h) the library-owned parts of factorize_1d: the manual sort (labels re-ordered, codes re-mapped, null code kept) and the boolean route
+    perms = [list(p) for U in (2, 3) for p in itertools.permutations([10.0, 20.0, 30.0][:U])]
+    for u in (perms if tier == "thorough" else perms[1::2] + perms[:1]):
+        out.append({"kind": "f1d", "route": "sort", "uniques": u, "N": 4, "name": f"factorize_1d(sort=True): labels {u} re-ordered, codes re-mapped/N=4"})
+    out.append({"kind": "f1d", "route": "bool", "N": 3, "name": "factorize_1d(boolean key): code = the value, labels [False, True]/N=3"})
     # (e) range index
     for step in (-3, -2, -1, 1, 2, 3):
         out.append({"kind": "range_index", "N": N, "step": step, "name": f"factorize_range_index/step={step}/N={N}"})
@@ -86,6 +91,8 @@ def run_case(E, case):
             return constructor.run_case(E, case, PROP)
         if k == "views":
             return run_views(E, case)
+        if k == "f1d":
+            return run_f1d(E, case)
     except (Unsupported, OutsideModel):
         raise
     raise Unsupported(k)
@@ -420,6 +427,84 @@ def replay_range_index(case, conc):
     return bool(bad), {"codes": jsonable(list(codes)), "index": str(idx)}
 
 
+# ------------------------------------------------------------------ factorize_1d: manual sort, boolean route
+def run_f1d(E, case):
+    from ..models import FakeSeries, LIndex
+    t0 = time.time()
+    fz = E["factorization"]
+    N = case["N"]
+    inp = Inputs()
+    merged = MergedRT()
+    bads = []
+    if case["route"] == "sort":
+        uniq = case["uniques"]
+        U = len(uniq)
+        codes = inp.ints("c", N, -1, U - 1)
+        pd_ = fz["pd"]
+        pd_.factorize = lambda values, use_na_sentinel=True: (A(list(codes), "int64"), A(list(uniq), "float64"))      # contract: pd.factorize
+        try:
+            paths = run_paths(lambda: fz["factorize_1d"](FakeSeries(A([0.0] * N, "float64"), None), sort=True))
+        finally:
+            del pd_.factorize
+        for pc, (new_codes, labels), rt in paths:
+            pcz = b_and(*pc) if pc else True
+            for kind, g_, c_, where in rt.obligations:
+                merged.obligations.append((kind, b_and(pcz, g_), c_, where))
+            labs = list(labels.labels) if isinstance(labels, LIndex) else None
+            if labs is None or sorted(labs) != sorted(uniq):
+                bads.append((f"labels {labs} are not the distinct keys {uniq}", pcz))
+                continue
+            if labs != sorted(labs):
+                bads.append((f"labels {labs} not in ascending order", pcz))
+            for i in range(N):
+                old, new = codes[i], new_codes.cells[i]
+                ok = ite(old == -1, new == -1, b_or(*[b_and(old == a, new == labs.index(uniq[a])) for a in range(U)]))
+                bads.append((f"row {i}: the label at its new code is its key, the null code stays", b_and(pcz, b_not(ok))))
+    else:
+        bs = inp.bools("b", N)
+        paths = run_paths(lambda: fz["factorize_1d"](FakeSeries(A(bs, "bool"), None)))
+        for pc, (codes_, labels), rt in paths:
+            pcz = b_and(*pc) if pc else True
+            for kind, g_, c_, where in rt.obligations:
+                merged.obligations.append((kind, b_and(pcz, g_), c_, where))
+            labs = list(labels.labels) if isinstance(labels, LIndex) else None
+            if labs != [False, True]:
+                bads.append((f"labels {labs} != [False, True]", pcz))
+                continue
+            for i in range(N):
+                c = codes_.cells[i]
+                code_is_one = c if (is_sym(c) and z3.is_bool(c)) or isinstance(c, bool) else (c == 1)
+                bads.append((f"row {i}: code = the boolean value", b_and(pcz, b_not(_iff(code_is_one, bs[i])))))
+    dec = decide(inp, bads, merged)
+    return _result(E, dec, t0, case, f"factorize_1d:{case['route']}")
+
+
+def replay_f1d(case, conc):
+    import pandas as pd
+    from groupby_lib.groupby.factorization import factorize_1d
+    N = case["N"]
+    problems = []
+    if case["route"] == "sort":
+        uniq = case["uniques"]
+        old = [int(x) for x in conc["c"]]
+        # keys whose first-appearance factorization is exactly (old codes, uniq): prepend one row per label in that order
+        keys = [uniq[a] for a in range(len(uniq))] + [uniq[c] if c >= 0 else float("nan") for c in old]
+        codes, labels = factorize_1d(real_np.array(keys), sort=True)
+        labs = [float(x) for x in labels]
+        if labs != sorted(uniq):
+            problems.append(f"labels {labs}")
+        for i, c in enumerate(old):
+            got = int(codes[len(uniq) + i])
+            if (c < 0) != (got < 0) or (c >= 0 and labs[got] != uniq[c]):
+                problems.append(f"row {i}: key {uniq[c] if c >= 0 else None} got code {got}")
+    else:
+        bs = [bool(x) for x in conc["b"]]
+        codes, labels = factorize_1d(real_np.array(bs))
+        if list(labels) != [False, True] or [int(c) for c in codes] != [int(b) for b in bs]:
+            problems.append(f"codes {list(codes)} labels {list(labels)} for {bs}")
+    return bool(problems), {"problems": problems, "inputs": jsonable(conc)}
+
+
 # ------------------------------------------------------------------ derived views: groups, key counts
 def run_views(E, case):
     """gb.groups lists, per label, exactly the ascending positions of its rows; labels without rows are absent; the lists partition the
@@ -523,6 +608,8 @@ def replay(case, conc, cand=None):
     k = case["kind"]
     if k == "views":
         return replay_views(case, conc)
+    if k == "f1d":
+        return replay_f1d(case, conc)
     if k == "combine":
         return replay_combine(case, conc)
     if k == "monotonic":
